@@ -140,7 +140,15 @@ pub struct Aggregate {
 /// Worker side: serve `RUN a b` requests on stdin.
 pub fn serve(check: &mut dyn Check) {
     let stdin = std::io::stdin();
-    let stdout = std::io::stdout();
+    // The protocol runs over a private duplicate of stdout; fd 1 itself is pointed at /dev/null so
+    // that subject code printing to stdout cannot corrupt the protocol.
+    let stdout = unsafe {
+        use std::os::fd::FromRawFd;
+        let proto = libc::dup(1);
+        let null = libc::open(c"/dev/null".as_ptr(), libc::O_WRONLY);
+        libc::dup2(null, 1);
+        std::sync::Mutex::new(std::fs::File::from_raw_fd(proto))
+    };
     let mut line = String::new();
     loop {
         line.clear();
@@ -153,16 +161,16 @@ pub fn serve(check: &mut dyn Check) {
             let b: usize = parts[2].parse().unwrap();
             for i in a..b {
                 {
-                    let mut out = stdout.lock();
+                    let mut out = stdout.lock().unwrap();
                     writeln!(out, "S {i}").unwrap();
                     out.flush().unwrap();
                 }
                 let r = check.run(i);
-                let mut out = stdout.lock();
+                let mut out = stdout.lock().unwrap();
                 writeln!(out, "R {} {}", i, serde_json::to_string(&r).unwrap()).unwrap();
                 out.flush().unwrap();
             }
-            let mut out = stdout.lock();
+            let mut out = stdout.lock().unwrap();
             writeln!(out, "DONE").unwrap();
             out.flush().unwrap();
         } else if parts.first() == Some(&"QUIT") {
